@@ -187,8 +187,8 @@ def margin_scenario(rng, n1=False):
 
 def time_scenario(rng):
     """C03 family: space-uniform field (only the time logic matters), arbitrary frame layout / file partition."""
-    dt = 30
-    imax, jmax, N = 6, 5, 2
+    dt = rng.choice([30, 60, 600])
+    imax, jmax, N = rng.choice([(6, 5, 2), (5, 6, 2), (6, 5, 3)])
     nfr = rng.randrange(2, 7)
     gaps = [rng.choice([1, 1, 2, 3, 4]) for _ in range(nfr - 1)]
     fsteps = [0]
@@ -203,7 +203,7 @@ def time_scenario(rng):
     b = rng.randrange(a + 1, min(fsteps[-1], a + 7) + 1)
     rev = rng.random() < 0.5
     start, stop = (b * dt, a * dt) if rev else (a * dt, b * dt)
-    H = [[40] * imax for _ in range(jmax)]
+    H = [[40 if N == 2 else 60] * imax for _ in range(jmax)]       # level depths must be integers (metres): N = 3 needs h = 60
     M = [[1] * imax for _ in range(jmax)]
     fm = dict(a=0, b=0, c=rng.randrange(1, 40), d=rng.randrange(1, 30), e=0)
     xq, yq, z = probes(rng, None, imax, jmax, 4, H, N)
@@ -218,8 +218,8 @@ def time_scenario(rng):
 
 def space_scenario(rng):
     """C02 family: time-constant field with pairwise distinct-ish node values, masks, bathymetry, subgrids, packing."""
-    dt = 30
-    imax, jmax = 8, 7
+    dt = rng.choice([30, 60])
+    imax, jmax = rng.choice([(8, 7), (7, 9), (10, 6)])
     N = rng.choice([2, 2, 3])
     hs = (40, 80) if N == 2 else (60, 120)
     M = [[1] * imax for _ in range(jmax)]
@@ -240,7 +240,8 @@ def space_scenario(rng):
     if sub:
         eff = [sub[0], sub[1] + (imax if sub[1] < 0 else 0), sub[2], sub[3] + (jmax if sub[3] < 0 else 0)]
     xq, yq, z = probes(rng, eff, imax, jmax, 40, H, N)
-    return dict(kind="space", dt=dt, imax=imax, jmax=jmax, N=N, ftimes=[0, 60], cuts=[], start=start, stop=stop, rev=rev,
+    start, stop = (2 * dt, 0) if rev else (0, 2 * dt)
+    return dict(kind="space", dt=dt, imax=imax, jmax=jmax, N=N, ftimes=[0, 2 * dt], cuts=[], start=start, stop=stop, rev=rev,
                 H=H, M=M, fm=fm, pack=rng.random() < 0.4, hasscal=True, spack=rng.random() < 0.3, subgrid=sub,
                 xq=xq, yq=yq, z=z,
                 cls=dict(rev=rev, subgrid=sub is not None, land=any(0 in r for r in M), N=N))
